@@ -179,12 +179,28 @@ static const char WS_UPGRADE[] = "GET /.well-known/coap HTTP/1.1\r\n"
                                  "Sec-WebSocket-Version: 13\r\n"
                                  "\r\n";
 
+static int g_pad_line; /* >0: the next WS stream's handshake carries an extra legal header line of this many bytes (with CRLF) */
 static void
 stream_begin(struct stream *s, const char *name, int ws) {
   memset(s, 0, sizeof *s);
   snprintf(s->name, sizeof s->name, "%s", name);
   s->ws = ws;
-  if (ws) {
+  if (ws && g_pad_line) {
+    /* request line, Host, then "X-Pad: aaa...\r\n" of exactly g_pad_line bytes, then the rest of the upgrade request */
+    const char *head = "GET /.well-known/coap HTTP/1.1\r\nHost: 10.0.0.1:80\r\n";
+    const char *rest = strstr(WS_UPGRADE, "Upgrade: websocket");
+    memcpy(s->b, head, strlen(head));
+    s->n = strlen(head);
+    memcpy(s->b + s->n, "X-Pad: ", 7);
+    s->n += 7;
+    for (int i = 0; i < g_pad_line - 9; i++)
+      s->b[s->n++] = (uint8_t)('a' + i % 26);
+    s->b[s->n++] = '\r';
+    s->b[s->n++] = '\n';
+    memcpy(s->b + s->n, rest, strlen(rest));
+    s->n += strlen(rest);
+    s->http_end = s->n;
+  } else if (ws) {
     memcpy(s->b, WS_UPGRADE, sizeof WS_UPGRADE - 1);
     s->n = sizeof WS_UPGRADE - 1;
     s->http_end = s->n;
@@ -202,7 +218,7 @@ stream_begin(struct stream *s, const char *name, int ws) {
   stream_add(s, csm);
 }
 
-#define NSTREAMS 6
+#define NSTREAMS 9
 static struct stream streams[NSTREAMS];
 static int nstreams;
 
@@ -257,6 +273,22 @@ build_streams(void) {
   stream_add(s, mk(0x02, 13, 2, 4));  /* 16-bit length form */
   stream_add(s, mk(0x01, 1, 0, 0));
   s->expect_msgs = 5;
+  /* W5: a short WebSocket stream whose complete segmentation space the quick tier can search */
+  s = &streams[nstreams++];
+  stream_begin(s, "ws-small", 1);
+  stream_add(s, mk(0x01, 1, 0, 0));
+  stream_add(s, mk(0x02, 0, 1, 3));
+  s->expect_msgs = 2;
+  /* W3/W4: a legal long header line (the longest the 160-byte line buffer holds, and one well inside it) */
+  for (int v = 0; v < 2; v++) {
+    s = &streams[nstreams++];
+    g_pad_line = v ? 147 : 159;
+    stream_begin(s, v ? "ws-line147" : "ws-line159", 1);
+    g_pad_line = 0;
+    stream_add(s, mk(0x01, 0, 0, 0));
+    stream_add(s, mk(0x02, 2, 1, 9));
+    s->expect_msgs = 2;
+  }
   /* W2: over-long handshake line: must close, not stall */
   s = &streams[nstreams++];
   memset(s, 0, sizeof *s);
@@ -691,6 +723,7 @@ struct node {
   size_t chunk; /* chunk that led here from parent */
 };
 static long ss_states, ss_trans;
+static int ss_capped; /* this worker's search stopped at the deadline or the node cap */
 
 static void
 state_search(int si) {
@@ -704,7 +737,7 @@ state_search(int si) {
   int failed = 0;
   for (int cur = 0; cur < nn && !failed; cur++) {
     if (vx_time_left() < 5) {
-      vx_ev_not_exhaustive("state search: deadline");
+      ss_capped = 1;
       break;
     }
     /* path to cur */
@@ -764,7 +797,7 @@ state_search(int si) {
         if (nn < 200000)
           nodes[nn++] = (struct node){h, noff, cur, chunk};
         else {
-          vx_ev_not_exhaustive("state search: node cap");
+          ss_capped = 1;
           failed = 1;
           break;
         }
@@ -780,11 +813,23 @@ static void
 case_state_search(uint64_t idx, void *arg) {
   (void)arg;
   long s0 = ss_states, t0 = ss_trans;
+  if (!vx_is_thorough() && (!strncmp(streams[idx].name, "ws-line", 7) || !strcmp(streams[idx].name, "ws-frames") ||
+                            !strcmp(streams[idx].name, "tcp-fullbuf"))) {
+    /* the search over all segmentations of the three long streams takes minutes (measured: tcp-fullbuf 80 s, ws-frames
+     * 750 s): thorough tier.  Quick covers them with every cut pair / single cut and the byte-wise delivery, and runs the
+     * complete search on the short streams (tcp-short, tcp-long, tcp-oversize, ws-small, ws-longline) */
+    return;
+  }
+  double tl0 = vx_time_left();
   state_search((int)idx);
+  double took = tl0 - vx_time_left();
   vxp_count(1, (uint64_t)(ss_states - s0));
   vxp_count(2, (uint64_t)(ss_trans - t0));
-  vxp_sample("state search over stream %s (%zu bytes): %ld reader states, %ld transitions cover all 2^%zu segmentations", streams[idx].name,
-             streams[idx].n, ss_states - s0, ss_trans - t0, streams[idx].n - 1);
+  vxp_sample("state search over stream %s (%zu bytes): %ld reader states, %ld transitions %s all 2^%zu segmentations (%.1f s)", streams[idx].name,
+             streams[idx].n, ss_states - s0, ss_trans - t0, ss_capped ? "DO NOT cover (deadline / node cap)" : "cover", streams[idx].n - 1, took);
+  if (ss_capped)
+    vxp_count(5, 1);
+  vxp_count(10 + (int)idx, (uint64_t)(took * 10) + 1);
 }
 
 int
@@ -802,6 +847,8 @@ main(int argc, char **argv) {
         continue;
       if (k == 2 && !T && streams[i].n > 1200)
         continue;
+      if (k == 2 && !T && !strncmp(streams[i].name, "ws-line", 7))
+        continue; /* long handshake lines: every single cut and the byte-wise delivery in quick, pairs in thorough */
       snprintf(sp[nsp].name, sizeof sp[nsp].name, "cuts:%s:k=%d", streams[i].name, k);
       sp[nsp].si = i;
       sp[nsp].k = k;
@@ -856,12 +903,23 @@ main(int argc, char **argv) {
   vx_ev_add_states((long long)vxp_counter(1) + (long long)total, (long long)vxp_counter(2) + (long long)total, (long long)total);
   vx_ev_add_evals((long long)total + (long long)vxp_counter(2), (long long)vxp_distinct_count());
   vx_ev_int("segmentations_run", (long long)total);
+  if (vxp_counter(5))
+    vx_ev_not_exhaustive("reader-state search stopped at the deadline / node cap for some streams (see samples); the cut spaces are complete");
+  vx_ev_int("reader_state_searches_capped", (long long)vxp_counter(5));
+  for (int i = 0; i < nstreams; i++) {
+    char k[80];
+    snprintf(k, sizeof k, "reader_state_search_tenths_of_s.%s", streams[i].name);
+    vx_ev_int(k, (long long)vxp_counter(10 + i));
+  }
   vx_ev_int("reader_states", (long long)vxp_counter(1));
   vx_ev_int("reader_state_transitions", (long long)vxp_counter(2));
   vx_ev_rule("a real libcoap TCP / WebSocket server session fed a fixed valid byte stream (CSM or HTTP upgrade + 3-5 messages covering TCP length "
              "forms 0-12/13/14, tokens 0/8/ext-1B/ext-2B, WS 7/16/64-bit masked frames, a read that fills the 1472-byte buffer, an oversize "
-             "declared length, an over-long handshake line) under (1) every placement of <= k cuts, byte-wise and single-chunk, (2) all "
-             "2^(N-1) segmentations via BFS over reader states; distinct = distinct cut sets");
+             "declared length, an over-long handshake line, legal handshake lines of 147 and 159 bytes, a short WebSocket stream) under (1) every placement of <= k "
+             "cuts (k = 2, thorough 3 for streams <= 330 bytes; the long-line streams k = 1 in quick), byte-wise and single-chunk, (2) all "
+             "2^(N-1) segmentations via BFS over reader states: in quick for the streams tcp-short, tcp-long, tcp-oversize, ws-small, "
+             "ws-longline; in thorough for all streams (tcp-fullbuf about 80 s, ws-frames about 750 s); a search that meets the deadline or "
+             "the node cap is reported in cap_hit; distinct = distinct cut sets");
   vx_ev_assumption("server side of the stream only (unmasked client-direction WS frames are not exercised)");
   vx_ev_assumption("state merging in search (2) relies on the dump of every field the three reader functions read; responses written so far are part of the state");
   return vx_finish();
